@@ -41,7 +41,15 @@ import traceback
 from typing import Any, Callable, Dict, List, Optional
 
 LIFESPAN_ACTS = ("recv", "startup_complete", "startup_failed", "shutdown_complete", "shutdown_failed", "unknown",
-                 "raise", "hang", "return", "await", "set_late")
+                 "raise", "hang", "return", "await", "set_late",
+                 # the same messages without the `message` key, which the ASGI specification makes optional
+                 "startup_failed_nomsg", "shutdown_failed_nomsg")
+NOMSG = "_nomsg"
+
+
+def base_act(act: str) -> str:
+    """the action without its payload variant: what the server does depends on the type of the message only"""
+    return act[:-len(NOMSG)] if act.endswith(NOMSG) else act
 BODY = 2000          # response body size of the scripted http handler (sent in two writes)
 
 
@@ -159,12 +167,12 @@ def make_app(rec: Recorder, sc: dict, on_ls_start: Optional[Callable[[], None]] 
                 if act == "recv":
                     msg = await receive()
                     rec.add("ls_recv", type=msg["type"], state=_jsonable_state(scope["state"]))
-                elif act in ("startup_complete", "startup_failed", "shutdown_complete", "shutdown_failed", "unknown"):
+                elif base_act(act) in ("startup_complete", "startup_failed", "shutdown_complete", "shutdown_failed", "unknown"):
                     mtype = {"startup_complete": "lifespan.startup.complete", "startup_failed": "lifespan.startup.failed",
                              "shutdown_complete": "lifespan.shutdown.complete", "shutdown_failed": "lifespan.shutdown.failed",
-                             "unknown": "lifespan.bogus"}[act]
+                             "unknown": "lifespan.bogus"}[base_act(act)]
                     rec.add("ls_send", type=mtype)
-                    await send({"type": mtype, "message": "scripted"})
+                    await send({"type": mtype} if act.endswith(NOMSG) else {"type": mtype, "message": "scripted"})
                 elif act == "raise":
                     raise ScriptedRaise("scripted")
                 elif act == "hang":
@@ -1157,7 +1165,7 @@ def model_request(sc: dict, cmd: str, flags: Dict[str, dict]) -> dict:
             continue
         if act == "await":
             t_app += float(sc.get("await_s", 0.15))
-        script.append(act)
+        script.append(base_act(act))        # the model's actions are message types (HC.Props.C14.asgi_send_dispatch)
     for c in sc.get("clients", []):
         t = 0.0
         cid, kind = c["id"], c["kind"]
